@@ -706,6 +706,17 @@ class _Functional(ast.NodeTransformer):
 
     def visit_Call(self, node):
         self.generic_visit(node)
+        if isinstance(node.func, ast.IfExp):
+            # (A if c else B)(x)  ->  A(x) if c else B(x)
+            f = node.func
+            return ast.copy_location(ast.IfExp(
+                test=f.test,
+                body=ast.copy_location(ast.Call(
+                    func=f.body, args=node.args, keywords=node.keywords),
+                    node),
+                orelse=ast.copy_location(ast.Call(
+                    func=f.orelse, args=copy.deepcopy(node.args),
+                    keywords=copy.deepcopy(node.keywords)), node)), node)
         if isinstance(node.func, ast.Name) and node.func.id in (
                 'map', 'filter') and len(node.args) == 2 and \
                 not node.keywords and not any(
